@@ -9,15 +9,18 @@
 //! Answer line: `id ok sk=<ints> a=<C>x<S>:<ints> [x=<C>x<S>:<ints>] [c=<ints>] [r0=…] [g=<ints>]
 //!               be0=<R> be1=<R> be2=<R> be3=<R>` with `<R>` = `<C>x<S>:<ints>` or `panic:<class>`
 //! (FFT64Ref, NTT120Ref, FFT64Avx, NTT120Avx; integer lists in (column, limb, coefficient) order).
+//! For the tensor forms `dec=` is the plaintext returned by the real `glwe_tensor_decrypt` (NTT120Ref) applied to
+//! the tensor `dect=` (the same operation re-run on NTT120Ref).
 //! For `relin`, `a` is the tensor produced by `glwe_tensor_apply` on NTT120Ref from two fresh
 //! encryptions and `g` the tensor key (`glwe_tensor_key_encrypt_sk`) in (row, input column) order.
 use std::io::{BufRead, Write};
 
 use poulpy_core::{
-    EncryptionLayout, GLWEEncryptSk, GLWEMulConst, GLWEMulPlain, GLWETensorKeyEncryptSk, GLWETensoring,
+    EncryptionLayout, GLWEEncryptSk, GLWEMulConst, GLWEMulPlain, GLWETensorDecrypt, GLWETensorKeyEncryptSk, GLWETensoring,
     layouts::{
         Base2K, Degree, Dnum, Dsize, GGLWEInfos, GGLWEToRef, GLWE, GLWEInfos, GLWELayout, GLWEPlaintext, GLWESecret,
-        GLWESecretPreparedFactory, GLWETensor, GLWETensorKey, GLWETensorKeyLayout, GLWETensorKeyPrepared,
+        GLWESecretPreparedFactory, GLWESecretTensor, GLWESecretTensorFactory, GLWESecretTensorPrepared,
+        GLWESecretTensorPreparedFactory, GLWETensor, GLWETensorKey, GLWETensorKeyLayout, GLWETensorKeyPrepared,
         GLWETensorKeyPreparedFactory, LWEInfos, Rank, TorusPrecision, prepared::GLWESecretPrepared,
     },
 };
@@ -365,6 +368,43 @@ pub fn one_case(t: &[&str]) -> String {
     out.push_str(&format!(" a={}", fmt_vec(&a_vec)));
     if let Some(x) = &x_vec {
         out.push_str(&format!(" x={}", fmt_vec(x)));
+    }
+    if matches!(c.op.as_str(), "tensor" | "square" | "tensor_add") {
+        // the real tensor decryption of the real result (NTT120Ref): `dec` = plaintext limbs in the result's layout
+        let in_a = GLWELayout { n: Degree(c.n as u32), base2k: Base2K(c.b as u32), k: TorusPrecision(c.ka as u32), rank: Rank(c.rank as u32) };
+        let in_b = GLWELayout { n: Degree(c.n as u32), base2k: Base2K(c.b as u32), k: TorusPrecision(c.kb as u32), rank: Rank(c.rank as u32) };
+        let outl = GLWELayout { n: Degree(c.n as u32), base2k: Base2K(c.bo as u32), k: TorusPrecision(c.ko as u32), rank: Rank(c.rank as u32) };
+        let r = std::panic::catch_unwind(std::panic::AssertUnwindSafe(|| {
+            let mut scr2: ScratchOwned<G> = ScratchOwned::alloc(SCRATCH);
+            let mut ga2: GLWE<Vec<u8>> = GLWE::alloc_from_infos(&in_a);
+            ga2.data_mut().raw_mut().copy_from_slice(a_vec.raw());
+            let mut res: GLWETensor<Vec<u8>> = GLWETensor::alloc_from_infos(&outl);
+            if c.op == "tensor_add" {
+                res.data_mut().raw_mut().copy_from_slice(&c.r0);
+            }
+            if c.op == "square" {
+                module.glwe_tensor_square_apply(c.off, &mut res, &ga2, c.ka, scr2.borrow());
+            } else {
+                let mut gb2: GLWE<Vec<u8>> = GLWE::alloc_from_infos(&in_b);
+                gb2.data_mut().raw_mut().copy_from_slice(x_vec.as_ref().unwrap().raw());
+                if c.op == "tensor" {
+                    module.glwe_tensor_apply(c.off, &mut res, &ga2, c.ka, &gb2, c.kb, scr2.borrow());
+                } else {
+                    module.glwe_tensor_apply_add_assign(c.off, &mut res, &ga2, c.ka, &gb2, c.kb, scr2.borrow());
+                }
+            }
+            let mut sk_tensor: GLWESecretTensor<Vec<u8>> = GLWESecretTensor::alloc(Degree(c.n as u32), Rank(c.rank as u32));
+            module.glwe_secret_tensor_prepare(&mut sk_tensor, &sk, scr2.borrow());
+            let mut stp: GLWESecretTensorPrepared<DeviceBuf<G>, G> = module.glwe_secret_tensor_prepared_alloc(Rank(c.rank as u32));
+            module.glwe_secret_tensor_prepared_prepare(&mut stp, &sk_tensor);
+            let mut pt: GLWEPlaintext<Vec<u8>> = GLWEPlaintext::alloc_from_infos(&outl);
+            module.glwe_tensor_decrypt(&res, &mut pt, &sk_prep, &stp, scr2.borrow());
+            format!("{} dect={}", fmt_vec(&clone_vec(&pt.data)), fmt_vec(&clone_vec(res.data())))
+        }));
+        match r {
+            Ok(s) => out.push_str(&format!(" dec={s}")),
+            Err(_) => out.push_str(" dec=panic"),
+        }
     }
     out.push_str(&format!(" be0={}", run_fft64ref(&c, &a_vec, x_vec.as_ref(), tsk.as_ref())));
     out.push_str(&format!(" be1={}", run_ntt120ref(&c, &a_vec, x_vec.as_ref(), tsk.as_ref())));
